@@ -486,8 +486,12 @@ func evalImportStmt(vm *r.VM, node *syntax.ImportStmt) error {
 			}
 			// After executing the module, find it again to get the module object
 			extModule = newModule
+		} else {
+			// the module has been allocated by an earlier import (it may even be still
+			// loading): this import is a dependency of the current module as well
+			vm.AddModuleDependency(extLibName)
 		}
-		// check circular dependency
+		// check circular dependency - before any export of the module is used
 		if err2 := vm.CheckDepedency(extLibName); err2 != nil {
 			return err2
 		}
@@ -1300,6 +1304,16 @@ func execAnotherModule(vm *r.VM, libInfo r.LibNameInfo) (*r.Module, error) {
 		// #3. eval program
 		if _, err := evalProgram(vm, program, nil); err != nil {
 			return nil, WrapRuntimeError(vm, err)
+		}
+
+		// #4. the symbols of the module body have been dropped with the body's scope; keep the
+		// module's own methods and types declared in the module's scope (one level above
+		// its imports), so that its exported methods still find them when another module calls them
+		vm.BeginScope()
+		for name, val := range module.GetAllExportValues() {
+			if err := vm.DeclareConstElement(r.NewIDName(name), val); err != nil {
+				return nil, WrapRuntimeError(vm, err)
+			}
 		}
 
 		vm.PopCallFrame()
